@@ -145,7 +145,7 @@ pub fn frame_violations(before: &Snapshot, after: &Snapshot, ever_inside: &BTree
 fn run_once(sb: &Sandbox, case: &Case, plan: Vec<(usize, Mutation)>, restore_at: Vec<usize>, observe_kinds: bool) -> (RunRec, Option<CallRec>, Snapshot, u64) {
     sb.reset_root(&case.tree);
     let sandbox_dev = fstatat(libc::AT_FDCWD, sb.root().as_os_str().as_encoded_bytes(), true).map(|s| s.id.dev).unwrap_or(0);
-    let before = Snapshot::take_path(&sb.base);
+    let before = Snapshot::take_path_light(&sb.base, &B::new("root"));
     let root_snap = before.sub(&B::new("root"));
     // labels relative to the root for touched_entries
     let root_rel = Snapshot { map: root_snap.map.iter().map(|(p, e)| (B(p.0.strip_prefix(b"root").map(|r| r.strip_prefix(b"/").unwrap_or(r)).unwrap_or(&p.0).to_vec()), e.clone())).collect() };
@@ -206,7 +206,7 @@ fn run_once(sb: &Sandbox, case: &Case, plan: Vec<(usize, Mutation)>, restore_at:
     });
     let mut st = state.lock().unwrap();
     st.attacker.note_inside();
-    let after = Snapshot::take_path(&sb.base);
+    let after = Snapshot::take_path_light(&sb.base, &B::new("root"));
     let ever = st.attacker.inside.clone();
     let frame = frame_violations(&before, &after, &ever);
     let before_ids = before.idents();
